@@ -5,7 +5,7 @@ tier=${1:-quick}; par=${2:-4}
 cd /verif
 declare -A EXTRA=( [C01-w1]="C15" [C02-w1]="C17" [C04-w2]="C15" [C13-m2]="C15" [C11-m2]="C19" [C12-m2]="C04" [C04-m2]="C04"
   [regress-D3]="C10" [regress-D4]="C10" [regress-D1]="C02 C10" [regress-D21]="C02 C10" [regress-D40]="C02 C07 C10"
-  [C07-x1]="C17" [C08-x1]="C17" [C09-x1]="C17" [C12-x2]="C15" [C17-y2]="C02" [C19-z1]="C11" [C03-v2]="C18" [C11-v2]="C03" [C13-t2]="C14" [C08-t2]="C09" [C12-z2]="C15" [C13-z1]="C15" [C14-z1]="C15" [C14-r2]="C15" )
+  [C07-x1]="C17" [C08-x1]="C17" [C09-x1]="C17" [C12-x2]="C15" [C17-y2]="C02" [C19-z1]="C11" [C03-v2]="C18" [C11-v2]="C03" [C13-t2]="C14" [C08-t2]="C09" [C12-z2]="C15" [C13-z1]="C15" [C14-z1]="C15" [C14-r2]="C15" [C16-q2]="C06" )
 jobs=$(mktemp); res=$(mktemp); : > $res.skip
 for d in seeded/*/; do
   id=$(basename $d)
